@@ -10,6 +10,7 @@ import black_it.utils.time_series as ts
 from harness.common import Case, f
 from symx.core import UF_LOG, Sym, canon, cur, lift
 from symx.npx import NPX, patched
+from symx.core import reraise_if_harness  # noqa: E402
 
 LEVEL = "other"
 FUNCTIONS = ["black_it.utils.time_series:hp_filter", "black_it.utils.time_series:hp_cycle_lamb1600_filter",
@@ -211,6 +212,7 @@ def case_hp(n):
         try:
             cycle, trend = ts.hp_filter(y, lam)
         except Exception as e:  # noqa: BLE001
+            reraise_if_harness(e)
             return True, f"hp_filter raised {type(e).__name__}: {e}"
         K = _K(n)
         A = np.eye(n) + lam * K.T @ K
@@ -253,6 +255,7 @@ def case_two_calls(n):
             ts.hp_filter(y1, l1)
             cycle, trend = ts.hp_filter(y2, l2)
         except Exception as e:  # noqa: BLE001
+            reraise_if_harness(e)
             return True, f"hp_filter raised {type(e).__name__}: {e}"
         K = _K(n)
         A = np.eye(n) + l2 * K.T @ K
@@ -317,6 +320,7 @@ def _replay_wrappers(n, y):
             lh = ts.log_and_hp_filter(y)
             dl = ts.diff_log_demean_filter(y)
         except Exception as e:  # noqa: BLE001
+            reraise_if_harness(e)
             return True, f"raised {type(e).__name__}: {e}"
         K = _K(n)
         A = np.eye(n) + 1600 * K.T @ K
@@ -506,6 +510,7 @@ def replay_moments(values):
             if np.shape(out) != (18,) or not np.all(np.isfinite(out)):
                 msgs.append(f"kernel outputs of the model injected: summary {np.asarray(out).tolist()}")
         except Exception as e:  # noqa: BLE001
+            reraise_if_harness(e)
             msgs.append(f"get_mom_ts_1d raised {type(e).__name__}: {e}")
         for name, series in (("constant", np.full(8, 3.0)), ("linear", np.arange(10.0)), ("alternating", np.array([1.0, -1.0] * 6)),
                              ("huge", np.array([1.7e308, 1.6e308] * 5)), ("huge alternating", np.array([1.7e308, -1.7e308] * 5)), ("zeros", np.zeros(9))):
@@ -515,6 +520,7 @@ def replay_moments(values):
                     bad = [i for i, v in enumerate(np.asarray(out).ravel()) if not math.isfinite(v)]
                     msgs.append(f"{name} series of length {len(series)}: entries {bad} not finite")
             except Exception as e:  # noqa: BLE001
+                reraise_if_harness(e)
                 msgs.append(f"{name} series: get_mom_ts_1d raised {type(e).__name__}: {e}")
     return bool(msgs), "; ".join(msgs[:4]) or "all summaries finite (injected kernel outputs and six degenerate series with the real kernels)"
 
